@@ -1,4 +1,4 @@
 #!/bin/sh
 # developer helper: TLC with the library path of the specification (java started directly so that -Xss covers the main thread)
 export JAVA_TOOL_OPTIONS="-DTLA-Library=/verif/spec:/verif/spec/mc:/verif/spec/trace ${TLC_JOPTS}"
-exec java -Xss1g -XX:+UseParallelGC -cp /opt/veriftools/tla/tla2tools.jar:/opt/veriftools/tla/CommunityModules-deps.jar tlc2.TLC "$@"
+exec java -Xss1g -Dfile.encoding=UTF-8 -Dsun.stdout.encoding=UTF-8 -Dstdout.encoding=UTF-8 -XX:+UseParallelGC -cp /opt/veriftools/tla/tla2tools.jar:/opt/veriftools/tla/CommunityModules-deps.jar tlc2.TLC "$@"
